@@ -90,37 +90,45 @@ func runC13(t *testing.T, run *mc.Run) int {
 			})
 		}
 	}
-	// --- sshd processor blocked handing a login to an unready correlator
-	cell("sshd-processor-handoff/correlator-unready", true, func() string {
-		logins := make(chan common.RemoteUserLogin)
-		w := &wrec{}
-		mp := metrics.NewPrometheusMetricsProviderForRegisterer(prometheus.NewRegistry())
-		proc := sshd.NewSshdProcessor(context.Background(), logins, "n", "m", auditevent.NewDefaultAuditEventWriter(w), mp)
-		ctx, cancel := context.WithCancel(context.Background())
-		defer cancel()
-		returned := false
-		go func() {
-			_ = proc.ProcessSshdLogEntry(ctx, sshd.SshdLogEntry{PID: "77", Message: "Accepted password for a from 1.2.3.4 port 22 ssh2"})
-			returned = true
-		}()
-		synctest.Wait()
-		if returned {
-			return "returned although nobody received the login"
-		}
-		cancel()
-		synctest.Wait()
-		if !returned {
-			<-logins
+	// --- sshd processor blocked handing a login to an unready correlator (every accepted-login variant)
+	for _, v := range []struct{ name, line string }{
+		{"password", "Accepted password for a from 1.2.3.4 port 22 ssh2"},
+		{"publickey", "Accepted publickey for a from 1.2.3.4 port 22 ssh2: ED25519 SHA256:abc"},
+		{"publickey-trailing", "Accepted publickey for a from 1.2.3.4 port 22 ssh2: ED25519 SHA256:abc trailing words"},
+		{"certificate", "Accepted publickey for a from 1.2.3.4 port 22 ssh2: ED25519-CERT SHA256:abc ID k (serial 1) CA ED25519 SHA256:def"},
+	} {
+		v := v
+		cell("sshd-processor-handoff/"+v.name+"/correlator-unready", true, func() string {
+			logins := make(chan common.RemoteUserLogin)
+			w := &wrec{}
+			mp := metrics.NewPrometheusMetricsProviderForRegisterer(prometheus.NewRegistry())
+			proc := sshd.NewSshdProcessor(context.Background(), logins, "n", "m", auditevent.NewDefaultAuditEventWriter(w), mp)
+			ctx, cancel := context.WithCancel(context.Background())
+			defer cancel()
+			returned := false
+			go func() {
+				_ = proc.ProcessSshdLogEntry(ctx, sshd.SshdLogEntry{PID: "77", Message: v.line})
+				returned = true
+			}()
 			synctest.Wait()
-			return "still blocked on the hand-off after cancellation"
-		}
-		select {
-		case <-logins:
-			return "a login was delivered after the worker returned"
-		default:
-		}
-		return ""
-	})
+			if returned {
+				return "returned although nobody received the login"
+			}
+			cancel()
+			synctest.Wait()
+			if !returned {
+				<-logins
+				synctest.Wait()
+				return "still blocked on the hand-off after cancellation"
+			}
+			select {
+			case <-logins:
+				return "a login was delivered after the worker returned"
+			default:
+			}
+			return ""
+		})
+	}
 	// --- the audit processor: idle, and with input offered after cancellation
 	for _, state := range []string{"idle", "session-open", "events-held", "login-waiting"} {
 		state := state
